@@ -96,7 +96,7 @@ Section Worklist.
     de_follow c = true -> de_is_dir c = true ->
     existsb (fun a => same_handle fs (de_ino c) (snd a)) ig = false.
   Proof.
-    unfold generate_work. intros H HF HD.
+    unfold generate_work, gw_follow. intros H HF HD.
     destruct (follow_links && de_is_symlink (from_entry fs dir depth ent)) eqn:E1.
     - destruct (from_path fs (de_path (from_entry fs dir depth ent)) depth (de_ino (from_entry fs dir depth ent)) true)
         as [e1|] eqn:E2; [|discriminate].
@@ -114,7 +114,7 @@ Section Worklist.
     de_is_dir e1 = true -> existsb (fun a => same_handle fs (de_ino e1) (snd a)) ig = true ->
     generate_work fs max_filesize follow_links has_filter filter should_skip ig dir depth ent = GOut (OLoop (de_path e1)).
   Proof.
-    intros HF HS HP HD HL. unfold generate_work. rewrite HF, HS. cbn [andb from_entry de_ino] in *. rewrite HP, HD.
+    intros HF HS HP HD HL. unfold generate_work, gw_follow. rewrite HF, HS. cbn [andb from_entry de_ino] in *. rewrite HP, HD.
     unfold check_symlink_loop. rewrite HL. reflexivity.
   Qed.
 End Worklist.
